@@ -2801,3 +2801,27 @@ pub mod markfx2 {
         }
     }
 }
+
+// ---------------------------------------------------------------- R-RAWWORDS
+pub mod rawfx {
+    pub struct Rs { pub words: Vec<u64>, pub size: usize, pub ones: usize }
+    fn build(words: Vec<u64>, size: usize) -> Rs {
+        let ones = words.iter().map(|w| w.count_ones() as usize).sum();
+        Rs { words, size, ones }
+    }
+    fn build_masked(mut words: Vec<u64>, size: usize) -> Rs {
+        words.resize((size + 63) / 64, 0);
+        if size % 64 != 0 { let l = words.len() - 1; words[l] &= (1u64 << (size % 64)) - 1; }
+        build(words, size)
+    }
+    pub fn bad_from_words(mut words: Vec<u64>, size: usize) -> Rs {
+        words.resize((size + 63) / 64, 0);
+        build(words, size)
+    }
+    pub fn ok_from_words(words: Vec<u64>, size: usize) -> Rs { build_masked(words, size) }
+    pub fn ok_bitwise(words: Vec<u64>, size: usize) -> Rs {
+        let mut v = vec![0u64; (size + 63) / 64];
+        for i in 0..size { if i / 64 < words.len() && (words[i / 64] >> (i % 64)) & 1 == 1 { v[i / 64] |= 1 << (i % 64); } }
+        build(v, size)
+    }
+}
